@@ -327,8 +327,8 @@ def one_run(rng, mode, params=None):
                     for j in range(1, params.get('sent', 1)):
                         if any(k == 'G%d' % j and pid == victim.pid for k, pid, i, ts in log1):
                             valid = False
-                    if len(params['signals']) > 1 and params.get('sent', 1) < len(params['signals']):
-                        valid = False
+                    # (a later request that was never sent because the worker was already gone does not matter: the run is judged on
+                    # what was delivered)
             params['valid_instant'] = valid
             if valid:
                 if mode in ('term', 'int') and delivered:
@@ -394,6 +394,8 @@ def _runs(ck, n, modes, presets=()):
         mode = modes[i % len(modes)]
         if i < len(presets):
             mode, preset = presets[i]
+            preset = dict(preset)
+            preset.setdefault('signals', [mode])
         else:
             preset = None
         params, found = one_run(ck.rng, mode, preset)
